@@ -105,12 +105,16 @@ fn main() {
                 "wmc" => wmc::candidates(seed),
                 _ => vec![],
             };
+            // C11 (semantic hashing): of the shared enumerators only failures of the hash-identified builders / of the hash count
+            let must: Option<&str> = if function == "prop:C11" { match key.as_str() { "dnnf" => Some("semantic store"), "compile" => Some("semantic SDD"), "wmc" => Some("hash"), _ => None } } else { None };
             let mut tried = 0usize;
             for c in cases {
                 tried += 1;
                 // a crash that cannot be caught (stack overflow, abort) is attributed to the last case announced here
                 eprintln!("RUNNING {}", c);
                 if let Err(e) = run_case(&c) {
+                    // a run for one property counts only the failures that property is about
+                    if let Some(m) = must { if !e.contains(m) { continue; } }
                     let mut c = c;
                     c["why"] = json!(e);
                     println!("FAILING-INPUT {}", c);
